@@ -79,6 +79,7 @@ func VxH06run() {
 		tasks = append(tasks, NewTask(wf, p, p.Name(), p.CommandPattern, map[string]*FileIP{}, p.PathFuncs, p.PortInfo,
 			map[string]string{}, map[string]string{}, "", nil, c))
 	}
+	slots0 := vxChanLen(vxFieldChan(wf, 0)) // (a semaphore may count slots in use or free slots)
 	vxPreemptBudget(vxGet("preempt"))
 	vxSet("maxload", 0)
 	kind := vxRun(func() {
@@ -92,7 +93,7 @@ func VxH06run() {
 	vxAssert(kind == "returned", "C07.no-deadlock")
 	vxReach("ran")
 	vxAssert(vxInvCount() == n, "C06.all-tasks-ran")
-	vxAssert(vxChanLen(vxFieldChan(wf, 0)) == 0, "C06.all-slots-returned")
+	vxAssert(vxChanLen(vxFieldChan(wf, 0)) == slots0, "C06.all-slots-returned")
 }
 
 // VxH07proc: k ready tasks of ONE process (real Workflow.Run / Process.Run) on a workflow
